@@ -23,6 +23,7 @@ import os
 import re
 import sys
 
+from harness.pyprelude import PreludeKernels
 from vlib.core import VERIF, Check, Stream, b01, hs, line, opt, unhs
 
 _GEN = None
@@ -694,9 +695,9 @@ class GateStream(Stream):
 
 CHECK = Check(
     prop="C20",
-    gen=["Debugger"],
-    modules=["WzVerif.Props.C20"],
-    streams=[HostStream(), PinStream(), SessionStream(), GateStream()],
+    gen=["Debugger", "PyFns_Host"],
+    modules=["WzVerif.Props.C20", "WzVerif.Props.C20T"],
+    streams=[HostStream(), PinStream(), SessionStream(), GateStream(), PreludeKernels()],
     assumptions=[
         "the idna codec is an opaque parameter of the model (String -> Except); the harness supplies CPython's answers for the strings of each case, the theorems hold for every such function",
         "hash_pin (sha1), gen_salt and time.time() are abstracted: the PIN cookie is one of {valid, expired, wrong hash, malformed, absent}, the secret one of {right, wrong, absent}",
@@ -704,6 +705,7 @@ CHECK = Check(
         "get_resource (static files of the debugger) is served without Host or secret check; the property does not list it among the gated endpoints",
         "PINs are abstracted to generations in the session model (a run-time change of app.pin increments the generation; a cookie carries the generation it was issued for); cookie expiry is not part of sessions",
         "multi-process sharing of the failure counter (multiprocessing.Value) and real sleeping are outside the model",
+        "_strip_port and host_is_trusted are regenerated from the source by tools/py2lean.py (Gen/PyFns_Host.lean) on every run and proved equal to the hand model for all inputs (Props/C20T; idna stays opaque); the CPython primitives the translated code calls (startswith, find, slicing, partition, endswith) are modelled in Util/PyPrelude.lean and validated by stream prelude-kernels",
     ],
     trusted_extra=["CPython's idna codec (encodings.idna) - opaque in the model, also used by the host oracle"],
     quick_budget=4000,
